@@ -13,6 +13,7 @@ import (
 	"math"
 	"os"
 	"reflect"
+	"runtime"
 	"strconv"
 	"strings"
 
@@ -289,6 +290,36 @@ func scribble(v reflect.Value, depth int) {
 	}
 }
 
+// UA: bytes allocated by the generated Unmarshal of the input, and by the owning runtime's own decoder for the same
+// input into the same Go type (the yardstick for "in proportion to the input")
+func doUA(full string, input []byte) string {
+	measure := func(dec func(m interface{}) error) (string, uint64) {
+		m, err := newMessage(full)
+		if err != nil {
+			return "driver-error", 0
+		}
+		var ms runtime.MemStats
+		runtime.ReadMemStats(&ms)
+		a0 := ms.TotalAlloc
+		res := guard(func() string {
+			if err := dec(m); err != nil {
+				return "err"
+			}
+			return "ok"
+		})
+		runtime.ReadMemStats(&ms)
+		return res, ms.TotalAlloc - a0
+	}
+	r1, a1 := measure(func(m interface{}) error { return m.(unmarshaler).Unmarshal(input) })
+	r2, a2 := measure(func(m interface{}) error {
+		if runtimeName == "gogo" {
+			return m.(interface{ XXX_Unmarshal([]byte) error }).XXX_Unmarshal(input)
+		}
+		return (proto.UnmarshalOptions{}).Unmarshal(input, m.(proto.Message))
+	})
+	return fmt.Sprintf("%s %d %s %d", r1, a1, r2, a2)
+}
+
 // RU: the owning RUNTIME's own Unmarshal into the same generated Go type (its table-driven / fast-path decoder,
 // not the generated method), rendered like UM: the most literal "reference runtime" for this type
 func doRU(full string, input []byte) string {
@@ -389,6 +420,8 @@ func Main(rt string) {
 			switch f[0] {
 			case "SM":
 				res = doSM(f[1], unhex(f[2]))
+			case "UA":
+				res = doUA(f[1], unhex(f[2]))
 			case "US":
 				res = doUS(f[1], unhex(f[2]))
 			case "UM":
